@@ -1,5 +1,6 @@
 import YardlProofs.WirePrefix
 import YardlProofs.StreamsR
+import YardlProofs.PyStreamR
 
 /-!
 # C16 — A truncated stream is reported, never mistaken for a complete one
@@ -14,6 +15,13 @@ outside the valid buffer window (`bad`) — and `VerifyFinished` succeeds iff no
 Before that commit the model had `fill` in place of `fillOrThrow`; the witnesses found then
 (cut at a multiple of the capacity; `0x80` + EOF decoding as 128) are kept in
 `corpus/C16/` and are replayed on the real generated C++ by `checks/c16.py`.
+
+Implementation level, Python (`YardlModel/PyStream.lean`, the `CodedInputStream` of `_binary.py`): for every
+buffer size and every split of the bytes between buffer and underlying stream, `read_byte`, `read(struct)`,
+`read_unsigned_varint`, `read_view` / `read_bytearray` (buffered, refilled, and the larger-than-buffer path)
+return exactly the next bytes of the stream, and a read that needs more bytes than the stream holds raises
+(`py_reader_*_cut`): `EOFError`, or the `BufferError` of the off-by-one slice in `_fill_buffer`, which
+`py_buffer_error_only_when_truncated` shows cannot occur while the stream still holds the bytes asked for.
 -/
 
 namespace Yardl.C16
@@ -52,6 +60,52 @@ theorem verify_finished_iff (s : CIS) (hc : 0 < s.cap) (hinv : s.Inv) :
     (s.pending = [] → ∃ s', s.verifyFinished = .ok () s') ∧
     (s.pending ≠ [] → s.verifyFinished = .notFinished) :=
   ⟨CIS.verifyFinished_ok s hc hinv, CIS.verifyFinished_leftover s hc hinv⟩
+
+/-! ### the Python reader -/
+
+theorem py_reader_byte (s : PIS) (hc : 0 < s.cap) (hinv : s.Inv) (b : UInt8) (rest : Bytes) (hp : s.pending = b :: rest) :
+    ∃ s', s.readByte = .ok b s' ∧ s'.pending = rest ∧ s'.Inv ∧ s'.cap = s.cap :=
+  PIS.readByte_ok s hc hinv b rest hp
+
+theorem py_reader_fixed (s : PIS) (w : Nat) (hc : w ≤ s.cap) (hinv : s.Inv) (bs rest : Bytes) (hl : bs.length = w)
+    (hp : s.pending = bs ++ rest) :
+    ∃ s', s.readFixed w = .ok (CIS.leVal bs) s' ∧ s'.pending = rest ∧ s'.Inv ∧ s'.cap = s.cap :=
+  PIS.readFixed_ok s w hc hinv bs rest hl hp
+
+theorem py_reader_varint (s : PIS) (hc : 0 < s.cap) (hinv : s.Inv) (n : Nat) (rest : Bytes) (hp : s.pending = encVar n ++ rest) :
+    ∃ s', s.readVar = .ok n s' ∧ s'.pending = rest ∧ s'.Inv ∧ s'.cap = s.cap :=
+  PIS.readVar_ok s hc hinv n rest hp
+
+/-- byte runs of any length, also longer than the buffer -/
+theorem py_reader_bytes (s : PIS) (hinv : s.Inv) (bs rest : Bytes) (hp : s.pending = bs ++ rest) :
+    ∃ s', s.readBytes bs.length = .ok bs s' ∧ s'.pending = rest ∧ s'.Inv ∧ s'.cap = s.cap :=
+  PIS.readBytes_ok s hinv bs rest hp
+
+theorem py_reader_byte_cut (s : PIS) (hp : s.pending = []) : s.readByte.isError = true :=
+  PIS.readByte_trunc s hp
+
+theorem py_reader_fixed_cut (s : PIS) (w : Nat) (hp : s.pending.length < w) : (s.readFixed w).isError = true :=
+  PIS.readFixed_trunc s w hp
+
+theorem py_reader_varint_cut (s : PIS) (hc : 0 < s.cap) (hinv : s.Inv) (n : Nat) (more : Bytes)
+    (hp : s.pending ++ more = encVar n) (hm : more ≠ []) : s.readVar.isError = true :=
+  PIS.readVar_trunc s hc hinv n more hp hm
+
+theorem py_reader_bytes_cut (s : PIS) (n : Nat) (hp : s.pending.length < n) : (s.readBytes n).isError = true :=
+  PIS.readBytes_trunc s n hp
+
+/-- the resize quirk of `_fill_buffer` never fires while the stream still holds what is asked for -/
+theorem py_buffer_error_only_when_truncated (s : PIS) (n : Nat) (hc : n ≤ s.cap) (hinv : s.Inv) (hn : n ≤ s.pending.length) :
+    ∃ s1, s.ensure n = .ok () s1 := by
+  obtain ⟨s1, h, _⟩ := PIS.ensure_ok s n hc hinv hn
+  exact ⟨s1, h⟩
+
+/-- and it does fire on a truncated stream: 3 bytes in a 4-byte buffer, one consumed, then 4 more wanted -/
+example : (match (PIS.init 4 [1, 2, 3]).readByte with
+    | .ok _ s => (match s.readFixed 4 with | .bufferError => true | _ => false)
+    | _ => false) = true := by decide
+
+example : (PIS.init 4 [1, 2, 3]).Inv := PIS.init_inv 4 [1, 2, 3]
 
 /-! Non-vacuity: the two situations the unfixed reader got wrong, at capacity 10. -/
 -- cut exactly at a refill boundary: window consumed, underlying stream empty, eof not yet seen
